@@ -34,9 +34,13 @@ func (fs *LocalFS) SetSymlinkPermissions(n NodeSymlink) error {
 	return nil
 }
 
-// setSymlinkTime is not supported on Windows.
-func setSymlinkTime(name string, mtime time.Time) error {
-	return nil
+// setPathTime sets the modification time of the named object. Not following
+// symlinks is not supported on Windows, they are left alone.
+func setPathTime(name string, mtime time.Time) error {
+	if info, err := os.Lstat(name); err != nil || info.Mode()&os.ModeSymlink != 0 {
+		return err
+	}
+	return os.Chtimes(name, mtime, mtime)
 }
 
 func (fs *LocalFS) CreateDevice(n NodeDevice) error {
